@@ -54,6 +54,8 @@ pub struct CaseResult {
     pub nontrivial: bool,
     pub outcome: String,
     pub failures: Vec<Failure>,
+    /// engine-specific additive counters (schedules, syscalls, ...), summed into the evidence
+    pub counters: BTreeMap<String, u64>,
 }
 
 pub struct Ctx {
@@ -272,6 +274,8 @@ pub struct Stats {
     pub samples: Vec<String>,
     pub violations: u64,
     pub failing_cases: u64,
+    #[serde(default)]
+    pub counters: BTreeMap<String, u64>,
 }
 
 impl Stats {
@@ -285,6 +289,9 @@ impl Stats {
         self.failing_cases += o.failing_cases;
         for (k, v) in &o.outcomes {
             *self.outcomes.entry(k.clone()).or_insert(0) += v;
+        }
+        for (k, v) in &o.counters {
+            *self.counters.entry(k.clone()).or_insert(0) += v;
         }
         for (k, (n, ex)) in &o.known {
             let e = self.known.entry(k.clone()).or_insert((0, ex.clone()));
@@ -353,6 +360,9 @@ pub fn worker_main(engine: &dyn Engine, tier: Tier, shard: usize, n: usize, from
             stats.nontrivial += 1;
         }
         *stats.outcomes.entry(r.outcome.clone()).or_insert(0) += 1;
+        for (k, v) in &r.counters {
+            *stats.counters.entry(k.clone()).or_insert(0) += v;
+        }
         if stats.samples.len() < 3 || (r.nontrivial && stats.samples.len() < 6) {
             stats.samples.push(trunc(case, 300));
         }
@@ -680,6 +690,7 @@ pub fn check_main(engine: &dyn Engine, tier: Tier) -> i32 {
         "samples": total.samples,
         "known_findings_hit": known_hit,
         "worker_deaths": aborts,
+        "counters": total.counters,
         "notes": notes,
     });
     if let (Some(c), Some(x)) = (coverage.as_object_mut(), engine.extra_coverage(tier).as_object()) {
